@@ -98,11 +98,11 @@ class _Proxy:
         m = _REGISTRY.get(self._mid)
         if m is None or not m.alive:
             raise ConnectionRefusedError(f"manager {self._mid} is gone")
-        sim = m.sim
+        sim = context.CURRENT or m.sim
         k = sim.kernel
         args = _rt(args)
         k.yield_point(f"rpc:{name}")
-        k.sched_note(f"R{k.current.name}:{name}")
+        k.sched_note(f"R{k.current.name if k.current else '-'}:{name}")
         if not m.alive:
             raise ConnectionRefusedError(f"manager {self._mid} is gone")
         m.rpcs += 1
@@ -216,7 +216,7 @@ class LockProxy(_Proxy):
         m = _REGISTRY.get(self._mid)
         if m is None or not m.alive:
             raise ConnectionRefusedError(f"manager {self._mid} is gone")
-        k = m.sim.kernel
+        k = (context.CURRENT or m.sim).kernel
         st = m.objs[self._oid]
         k.yield_point("rpc:lock.acquire")
         if st["owner"] is not None:
@@ -226,7 +226,7 @@ class LockProxy(_Proxy):
             k.block_until(lambda: st["owner"] is None or not m.alive, "lock.wait")
             if not m.alive:
                 raise ConnectionRefusedError(f"manager {self._mid} is gone")
-        st["owner"] = k.current.name
+        st["owner"] = k.current.name if k.current else "-"
         m.rpcs += 1
         return True
 
@@ -234,7 +234,7 @@ class LockProxy(_Proxy):
         m = _REGISTRY.get(self._mid)
         if m is None or not m.alive:
             raise ConnectionRefusedError(f"manager {self._mid} is gone")
-        k = m.sim.kernel
+        k = (context.CURRENT or m.sim).kernel
         st = m.objs[self._oid]
         if st["owner"] is None:
             raise RuntimeError("release unlocked lock")
